@@ -56,8 +56,17 @@ namespace ST
 
 namespace _ST_PRIVATE
 {
+#ifdef ST_VERIF_HOOKS
+    // Verification hook (off by default): lets a test harness observe a failed
+    // assertion in-process before the default handler aborts.
+    void verif_assert_hook(const char *filename, int line, const char *message);
+#endif
+
     inline void assert_handler(const char *filename, int line, const char *message)
     {
+#ifdef ST_VERIF_HOOKS
+        verif_assert_hook(filename, line, message);
+#endif
         std::fprintf(stderr, "%s:%d: %s\n", filename, line, message);
         std::abort();
     }
